@@ -43,8 +43,9 @@ def big_pipe(ctx, verdict, cases, name="measurex"):
     from props import exact_common as ec
     from props import c18
     obs = list(vlib.run_driver(ctx, "measurex", cases, for_tlc=False))
-    exprs, sigs = [], []
+    exprs, sigs, cases_out = [], [], []
     for c, o in zip(cases, obs):
+        cases_out.append(c)
         if o["ev"] != "ok" or o["area"] == "panic" or "panic" in o["parts"]:
             exprs.append("FALSE")
             sigs.append("measure|numeric|panic")
@@ -79,8 +80,46 @@ def big_pipe(ctx, verdict, cases, name="measurex"):
         conj.append("AreaOK(<<%s>>, <<%s>>, %s, %d, %d, %d)" % (", ".join(all_coords), ", ".join(map(str, all_idx)), ec.tla_int(gi[0]), 1 << gk, 4 ** k, len(all_coords)))
         exprs.append(" /\\ ".join(conj))
         sigs.append("measure|numeric|area-outside-rounding-bound")
+        # ---- Length(): witnesses floor(sqrt(D * 4^64)) per edge, checked by the specification (MeasureBig!LengthOK)
+        import math
+        M = 1 << 64
+        lconj, pos2 = [], 0
+        flat_pts = [ints[i:i + 2] for i in range(0, len(ints), 2)]
+        ring_spans = []                                   # (polygon index, ring index, first position, one past last) - 0-based
+        for pi, p in enumerate(o["x"]):
+            for ri, ring in enumerate(p):
+                ring_spans.append((pi, ri, pos2, pos2 + len(ring)))
+                pos2 += len(ring)
+
+        def length_expr(spans, got):
+            pts, idx, wit = [], [], []
+            for (_, _, a, b) in spans:
+                for j in range(a, b):
+                    pts.append(flat_pts[j])
+                    if j > a:
+                        d = (flat_pts[j][0] - flat_pts[j - 1][0]) ** 2 + (flat_pts[j][1] - flat_pts[j - 1][1]) ** 2
+                        wit.append(math.isqrt(d * M * M))
+                        idx.append(len(pts))
+                    else:
+                        wit.append(0)
+            gl, glk = ec.scale_ints([ec.parse_exact(got)])
+            return "LengthOK(<<%s>>, <<%s>>, <<%s>>, %s, %d, %d, %d, %d)" % (
+                ", ".join(ec.tla_pt(q) for q in pts), ", ".join(map(str, idx)), ", ".join(map(str, wit)), ec.tla_int(gl[0]), 1 << glk, 1 << k, M, len(pts))
+        lens = o.get("lens", {})
+        if any(":" not in v for v in lens.values()):          # panic, nan, +-inf: not a length
+            lconj.append("FALSE")
+        else:
+            lconj.append(length_expr(ring_spans, lens["mp"]))
+            for pi in range(len(o["x"])):
+                lconj.append(length_expr([sp for sp in ring_spans if sp[0] == pi], lens["pg%d" % pi]))
+            for sp in ring_spans[:2]:
+                lconj.append(length_expr([sp], lens["lr%d.%d" % (sp[0], sp[1])]))
+                lconj.append(length_expr([sp], lens["ls%d.%d" % (sp[0], sp[1])]))
+        exprs.append(" /\\ ".join(lconj))
+        sigs.append("measure|numeric|length-outside-rounding-bound")
+        cases_out.append(c)
     spec = open(os.path.join(ctx.specdir, "MeasureBig.tla")).read()
-    return c18.apalache_decimal(ctx, verdict, exprs, cases, sigs, name, spec, per_module=6 if ctx.quick else 20, extends="MeasureBig", modprefix="MeasObs")
+    return c18.apalache_decimal(ctx, verdict, exprs, cases_out, sigs, name, spec, per_module=6 if ctx.quick else 20, extends="MeasureBig", modprefix="MeasObs")
 
 
 PIPES = {"measure": pipe, "measurex": big_pipe}
@@ -93,11 +132,11 @@ def run(ctx, verdict):
     vlib.note_cases(ctx, cases, nontrivial=lambda c: c["v"] != [])
     ctx.coverage_extra["model_a"] = [dict(cfg=cfg, cases=len(cases), states=r["distinct"])]
     pipe(ctx, verdict, cases)
-    big = big_cases(ctx.seed, 48 if ctx.quick else 1200)
+    big = big_cases(ctx.seed, 32 if ctx.quick else 1200)
     vlib.note_cases(ctx, big)
     big_pipe(ctx, verdict, big)
     ctx.coverage_extra["numeric_tier"] = dict(cases=len(big), checker="Apalache on MeasureBig!AreaOK (exact integers, fold over the edges)")
     ctx.assumptions += ["structure tier: every shape is assembled from a catalogue of rings / lines whose edges have "
                         "integer length and whose vertices are small integers, so Area and Length are exact in float64 "
                         "and compared exactly; a wrongly bridged or skipped part changes the result by a non-zero amount",
-                        "numeric tier: seeded rings with arbitrary float64 ordinates up to 2^200, far from the origin, Area() of every polygon and of the whole within (n+8)*2^-52*sum|trapezoid terms|/2 (Apalache); the rounding clause for Length() is not decided (it needs square roots)"]
+                        "numeric tier: seeded rings with arbitrary float64 ordinates up to 2^200, far from the origin, Area() of every polygon and of the whole within (n+8)*2^-52*sum|trapezoid terms|/2 (Apalache); Length() of the whole, every polygon and the first rings (as LinearRing and LineString) within (n+8)*2^-52*L + n*2^-64 units of the exact sum of square roots, through per-edge floor-square-root witnesses that the specification checks (MeasureBig!LengthOK)"]
